@@ -16,9 +16,10 @@ static const char *const SN[] = {
 	"cancelled by two threads at once",
 	"dispatch_source_cancel_and_wait from another thread (no cancel handler)",
 	"cancel racing with activation on another thread",
+	"cancelled from its registration handler while an event is already pending",
 };
 #define NK 4
-#define NS 7
+#define NS 8
 #define HANDLER 100
 enum { EV_CANCEL_CALL = EV_USER, EV_CANCEL_RET, EV_CANCELH };
 static const char KEY = 0;
@@ -56,6 +57,7 @@ static void cancel_handler(void *ctx)
 	g_cancelh++;
 }
 static void cancel_item(void *ctx) { (void)ctx; do_cancel(2); }
+static void registration_handler(void *ctx) { (void)ctx; do_cancel(4); }
 static void t1_fn(void *arg)
 {
 	(void)arg;
@@ -99,6 +101,7 @@ static void run(int v)
 	}
 	dispatch_source_set_event_handler_f(g_src, handler);
 	if (g_scen != 5) dispatch_source_set_cancel_handler_f(g_src, cancel_handler);
+	if (g_scen == 7) dispatch_source_set_registration_handler_f(g_src, registration_handler);
 	int th = -1;
 	vx_focus_begin();
 	switch (g_scen) {
@@ -140,6 +143,10 @@ static void run(int v)
 		feed();
 		do_cancel(1);
 		break;
+	case 7:
+		feed();                      // data merged / byte present before the source is even activated
+		dispatch_activate(g_src);
+		break;
 	}
 	if (th >= 0) vx_join(th);
 	if (g_scen != 5) wait_int(&g_cancelh, 1);
@@ -179,9 +186,9 @@ static int check(int v, const vx_log *l, char *msg, size_t len)
 	}
 	if (scen != 5 && ncancelh != 1) FAILF(msg, len, "cancellation handler ran %d times (expected exactly once)", ncancelh);
 	if (scen == 0 && ev_count(l, EV_START, HANDLER)) FAILF(msg, len, "event handler ran although the source was cancelled before activation");
-	if ((scen == 1 || scen == 2 || scen == 5) && starts_after_cancel)
+	if ((scen == 1 || scen == 2 || scen == 5 || scen == 7) && starts_after_cancel)
 		FAILF(msg, len, "event handler started %d time(s) after the cancel %s had returned", starts_after_cancel,
-				scen == 1 ? "issued from the handler" : scen == 2 ? "issued from an item on the target queue" : "_and_wait");
+				scen == 1 ? "issued from the handler" : scen == 2 ? "issued from an item on the target queue" : scen == 7 ? "issued from the registration handler (on the target queue)" : "_and_wait");
 	if ((scen == 3 || scen == 4 || scen == 6) && starts_after_cancel > 1)
 		FAILF(msg, len, "event handler started %d times after dispatch_source_cancel had returned on another thread (at most the one committed invocation is allowed)", starts_after_cancel);
 	return 0;
